@@ -20,16 +20,16 @@ theorem every_syn_is_validated :
     `setN`**: the loop is left by `break` only (returns inside it are error or
     shutdown paths), and `setN` is the first call after it -/
 theorem server_adopts_window_on_every_exit :
-    Srv.reverse.take 4 = ["return", "call:g.log.Debugf", "call:g.setN", "break"] ∧
+    Srv.reverse.take 3 = ["return", "call:g.setN", "break"] ∧
     (Srv.filter (· == "call:g.setN")).length = 1 := by decide
 
 /-- the `resent` shortcut (complete on SYNACK / DATA) is taken only after the
     server has restarted its handshake: the flag is tested right where the
     shortcut leaves the loop, and it is not set by the loop's header -/
 theorem resent_shortcut_guarded :
-    ((Srv.drop (Srv.idxOf "cond:resent")).take 5) =
-      ["cond:resent", "call:g.log.Tracef", "call:g.timeoutManager.Received", "break", "label:handshakeLoop"] ∧
-    ((Srv.drop (Srv.idxOf "labeldef:handshakeLoop")).take 3) = ["labeldef:handshakeLoop", "for", "call:g.log.Debugf"] ∧
+    ((Srv.drop (Srv.idxOf "cond:resent")).take 4) =
+      ["cond:resent", "call:g.timeoutManager.Received", "break", "label:handshakeLoop"] ∧
+    ((Srv.drop (Srv.idxOf "labeldef:handshakeLoop")).take 2) = ["labeldef:handshakeLoop", "for"] ∧
     Srv.contains "forpost" = false := by decide
 
 /-- the client re-arms its handshake timeout for every wait (a fresh `time.After`
